@@ -228,6 +228,7 @@ func init() {
 				}
 				for i := 0; i < nreuse; i++ {
 					cs = append(cs, fw.Case{ID: fmt.Sprintf("twochips/%d", i), Kind: "twochips", P: map[string]any{"i": i}})
+					cs = append(cs, fw.Case{ID: fmt.Sprintf("zetaone/%d", i), Kind: "zetaone", P: map[string]any{"i": i}})
 				}
 				for _, shape := range []string{"real", "synth"} {
 					cs = append(cs, fw.Case{ID: "compiled/r1cs/" + shape, Kind: "compiled", P: map[string]any{"sys": "r1cs", "shape": shape}})
@@ -272,6 +273,9 @@ func init() {
 				}
 				if c.Kind == "compiled" {
 					return c16Compiled(ctx, c)
+				}
+				if c.Kind == "zetaone" {
+					return c16ZetaOne(ctx, c)
 				}
 				var s plonkShape
 				if c.Kind == "real" {
@@ -462,6 +466,77 @@ func c16Compiled(ctx *fw.Ctx, c fw.Case) fw.Outcome {
 		return v
 	}
 	o.Sample = map[string]any{"system": sys, "shape": c.Str("shape"), "inputs": nIn}
+	return o
+}
+
+// c16ZetaOne: the evaluation point zeta = 1 (a point of the subgroup: Z_H(zeta) = 0 and
+// L_0(zeta) = 1). All gate filters vanish (selectors at the unused marker) and the partial
+// products are chained consistently, so the only non-zero terms are L_0(zeta)*(Z(zeta)-1):
+// the identity is false for Z(zeta) != 1 and the opening set must not be accepted.
+func c16ZetaOne(ctx *fw.Ctx, c fw.Case) fw.Outcome {
+	var o fw.Outcome
+	r := ctx.Rand(c.ID)
+	s := synthShape(r, 2+r.Intn(20), 1+r.Intn(8), 1+r.Intn(3))
+	var pi *plonkInstance
+	for pi == nil {
+		if p, _, ok := solveInstance(r, s); ok {
+			pi = p
+		}
+	}
+	pi.Zeta = ref.EOne
+	for i := range s.Groups {
+		pi.Open.Constants[i] = ref.EFrom(ref.UnusedSelector)
+	}
+	np := s.numPartialProducts()
+	for i := 0; i < s.NumChallenges; i++ {
+		zx := pi.Open.PlonkZs[i]
+		if zx == ref.EOne {
+			zx = ref.E{2, 0}
+			pi.Open.PlonkZs[i] = zx
+		}
+		acc := zx
+		k := 0
+		for st := 0; st < s.NumRoutedWires; st += s.QDF {
+			e := st + s.QDF
+			if e > s.NumRoutedWires {
+				e = s.NumRoutedWires
+			}
+			n, d := ref.EOne, ref.EOne
+			for j := st; j < e; j++ {
+				w := pi.Open.Wires[j]
+				sid := ref.EScalar(pi.Zeta, s.KIs[j])
+				n = ref.EMul(n, ref.EAdd(ref.EAdd(w, ref.EScalar(sid, pi.Betas[i])), ref.EFrom(pi.Gammas[i])))
+				d = ref.EMul(d, ref.EAdd(ref.EAdd(w, ref.EScalar(pi.Open.PlonkSigmas[j], pi.Betas[i])), ref.EFrom(pi.Gammas[i])))
+			}
+			if ref.EIsZero(d) {
+				return fw.Outcome{Trivial: true}
+			}
+			acc = ref.EDiv(ref.EMul(acc, n), d)
+			if k < np {
+				pi.Open.PartialProducts[i*np+k] = acc
+			} else {
+				pi.Open.PlonkZsNext[i] = acc
+			}
+			k++
+		}
+	}
+	rv, zpn, ok := refVanishing(s, pi)
+	if !ok {
+		return fw.Inconcl("reference cannot evaluate the shape")
+	}
+	if ref.PlonkCheck(ref.PlonkShape{NumChallenges: s.NumChallenges, QuotientDegreeFactor: s.QDF}, rv, zpn, pi.Open.QuotientPolys) {
+		return fw.Outcome{Trivial: true} // the L0 terms cancel by chance
+	}
+	res, _ := runPlonk(s, pi, false)
+	o.Events += events(res)
+	if io, bad := inconclusiveIf(res); bad {
+		return io
+	}
+	if res.Verdict == engine.Accept {
+		return fw.Violate("accepts_broken_identity:zeta_on_the_subgroup", fmt.Sprintf("case %s: zeta = 1, every term vanishes except L_0(zeta)*(Z(zeta)-1) with Z(zeta) = %v: accepted", c.ID, pi.Open.PlonkZs[0]))
+	}
+	o.Inc("zeta_one_not_accepted_" + res.Verdict.String())
+	o.Sample = map[string]any{"routed": s.NumRoutedWires, "factor": s.QDF, "challenges": s.NumChallenges, "verdict": resStr(res)}
 	return o
 }
 
